@@ -91,6 +91,16 @@ def r1(ctx, rep):
                 problems.append(f"skip_serializing_if=\"{pred}\" on a field of type {ty}")
             if pred not in ok_pred:
                 problems.append(f"skip predicate `{pred}` is not one whose skipped value equals the deserialisation default")
+            md = re.search(r'default\s*=\s*"([^"]+)"', sa)
+            if md:
+                # a custom default: the value it returns must be one the predicate skips (otherwise a skipped value reads back as a different one)
+                dfs = syn.find_fns(md.group(1), crate=adt.get("crate")) or syn.find_fns(last_seg(md.group(1)))
+                val = show(tail_expr(dfs[0]["body"])) if len(dfs) == 1 and "body" in dfs[0] else None
+                skipped = {"Option::is_none": {"None"}, "Vec::is_empty": {"Vec::new()", "vec!()", "Vec::default()", "Default::default()"},
+                           "HashMap::is_empty": {"HashMap::new()", "HashMap::default()", "Default::default()"}, "is_false": {"false"},
+                           "String::is_empty": {"String::new()", "String::default()", "Default::default()"}}.get(pred, set())
+                if val not in skipped:
+                    problems.append(f"`default = \"{md.group(1)}\"` returns `{val}` but `{pred}` skips {sorted(skipped)}: a skipped value is read back as `{val}`")
         if re.search(r"\bskip\b(?!_serializing_if)", sa) or "skip_deserializing" in sa or re.search(r"skip_serializing\b(?!_if)", sa):
             problems.append("`skip` on a field of the serialised IR: the value is lost in the JSON stage")
         if "flatten" in sa:
